@@ -78,6 +78,9 @@ ASSUMPTIONS = ['leaf operator classes without an executable model are opaque: th
                'wraps without copying: equivalent as long as no body writes its input, which the '
                'ndarray-input oracle tests; range membership / castability are tags of the model '
                '(XArg, OArg, Leaf.junk), tied to Operator.__call__ by the dispatch stream only',
+               'user temporaries (tmp= / tmp_ran=) of OperatorRightScalarMult / OperatorComp / '
+               'OperatorSum are modelled for the in-place bodies (tmpw lines); tmp_dom and the wrappers '
+               'derived with a shared temporary are oracle only (history stream, wrapper strata)',
                'the leaf stream reaches only the size < THRESHOLD_SMALL branch of _lincomb_impl '
                '(lincombSmall); ImagPart / ComplexModulus are modelled on real spaces only; the '
                'in-place bodies of PowerOperator / MultiplyOperator on a FIELD domain with a '
